@@ -102,6 +102,10 @@ def _ground(ob, ctx, rounds=2, max_terms=60):
             terms[it[1].get_id()] = it[1]
     for t in getattr(ctx, "extra_terms", []):
         terms[t.get_id()] = t
+    from .contracts import EXTRA_TERMS
+
+    for t in EXTRA_TERMS[-40:]:
+        terms[t.get_id()] = t
     done = set()
     unfolded = set()
     extra = []
